@@ -303,6 +303,35 @@ def presolver_gate(rep, F, tag):
     R.guard(body)
 
 
+def cone_cursor(rep, F, tag):
+    """reduce_cones walks the keep markers cone by cone: whatever a cone's branch does (resize, drop, keep), the marker cursor
+    must have moved past that cone's rows when the next cone is looked at - by consuming the take(nvars) window of a shared
+    iterator or by adding nvars to an index.  A path that skips the advance reads the next cones' markers from the wrong window."""
+    R = rep.rule('C09.R2', 'a row is dropped exactly when it is nonnegative and at/above the contracted bound; counters advance consistently')
+
+    def body():
+        f = F.one(name='reduce_cones')
+        n = 0
+        for val, ret, ev, tr in Walker(f, cut_loops=True).leaves():
+            if ret[0] != 'cut':
+                continue
+            n += 1
+            consumed = any(e[0] == 'call' and e[1] in ('count', 'last', 'for_each', 'sum', 'fold', 'collect', 'all', 'any') and 'take(by_ref(' in e[2] and 'nvars(' in e[2] for e in ev)
+            advanced = False
+            for e in ev:
+                if e[0] == 'assign' and isinstance(e[4], dict) and e[1]:
+                    v = canon(f.sym_rvalue(e[4]['rv'])).replace('withoverflow', '').replace(').0', ')')
+                    if re.fullmatch(r'add\(var:%s, (nvars\(.*\)|var:\w+)\)' % re.escape(e[1]), v) and ('nvars(' in v or any(x[0] == 'assign' and x[1] and ('var:' + x[1]) in v and isinstance(x[4], dict) and 'nvars(' in canon(f.sym_rvalue(x[4]['rv'])) for x in ev)):
+                        advanced = True
+            kinds = {k[:40]: v for k, v in val.items() if 'discr(next(into_iter(arg2))@Some.0)' in k or k.startswith('lt(0_usize, count(') or k.startswith('eq(')}
+            R.check(consumed or advanced, 'cone-cursor|%s%s' % (sorted(kinds.items()), tag),
+                    'reduce_cones: on the iteration path %s the marker cursor is not advanced past the cone (neither the take(nvars) window consumed nor '
+                    'an index increased by nvars): the following cones read their keep markers from a shifted window' % kinds, f.loc())
+        R.check(n >= 3, 'cone-cursor-paths' + tag, 'only %d iteration paths of reduce_cones analysed' % n, f.loc())
+
+    R.guard(body)
+
+
 def run(ctx, rep, tier):
     for cfg in CONFIGS:
         F = ctx.facts(cfg)
@@ -310,6 +339,7 @@ def run(ctx, rep, tier):
         tag = '' if cfg == 'default' else '[%s]' % cfg
         bound_capture(rep, F, E, tag)
         drop_condition(rep, F, tag)
+        cone_cursor(rep, F, tag)
         reversal(rep, F, tag)
         cap_unconditional(rep, F, tag)
         presolver_gate(rep, F, tag)
